@@ -133,6 +133,31 @@ def run(ctx):
         try:
             f = ctx.fn(rule, **kw)
             from rules.common import all_terms
+            if nm == "verify_init":
+                # decided on the branch structure, so that `if level < bits-1 {inner} else {leaf}` and the inverted
+                # `if level >= bits-1 {leaf} else {inner}` are the same program: the edge taken when level < bits-1 dominates
+                # every construction of the Inner variants, the opposite edge every construction of the Leaf variants
+                from rules.common import find_rel_edges
+                g = ctx.guards(f)
+                bm1 = Bin("Sub", Field(Arg(sidx), "bits"), Lit(1))
+                lt = find_rel_edges(g, "Lt", lvl(Arg(pidx)), bm1)
+                ge = find_rel_edges(g, "Ge", lvl(Arg(pidx)), bm1)
+                key = "%s:%s" % (rule, f.id)
+                cons = {"Inner": [], "Leaf": []}
+                for bi, si, st in f.body.iter_stmts():
+                    if st.rv is not None and st.rv.kind == "agg" and st.rv.agg == "adt" and st.rv.vname in cons and \
+                            str(st.rv.path).startswith("vdaf::poplar1::"):
+                        cons[st.rv.vname].append(bi)
+                good = len(lt) == 1 and len(ge) == 1 and cons["Inner"] and cons["Leaf"] and \
+                    all(f.body.dominates(lt[0].target, bi) for bi in cons["Inner"]) and \
+                    all(f.body.dominates(ge[0].target, bi) for bi in cons["Leaf"])
+                if good:
+                    ctx.ok(rule, key, "verify_init builds the Inner state/share exactly under level < bits - 1 and the Leaf ones under level >= bits - 1",
+                           loc=f.loc)
+                else:
+                    ctx.bad(rule, key, "verify_init does not select inner/leaf by comparing the level with bits - 1 "
+                                       "(lt-edges %d, ge-edges %d, Inner sites %s, Leaf sites %s)" % (len(lt), len(ge), cons["Inner"], cons["Leaf"]), loc=f.loc)
+                continue
             want = Bin(op, lvl(Arg(pidx)), Bin("Sub", Field(Arg(sidx), "bits"), Lit(1)))
             want2 = Bin({"Lt": "Gt", "Eq": "Eq"}[op], Bin("Sub", Field(Arg(sidx), "bits"), Lit(1)), lvl(Arg(pidx)))
             key = "%s:%s" % (rule, f.id)
